@@ -427,6 +427,7 @@ impl<W: Write + io::Seek> ZipWriter<W> {
             self.stats.hasher = Hasher::new();
 
             self.files.push(file);
+            self.writing_raw = false;
         }
         if let Some(keys) = options.encrypt_with {
             let mut zipwriter = crate::zipcrypto::ZipCryptoWriter { writer: core::mem::replace(&mut self.inner, GenericZipWriter::Closed).unwrap(), buffer: vec![], keys };
@@ -476,7 +477,9 @@ impl<W: Write + io::Seek> ZipWriter<W> {
         }
 
         self.writing_to_file = false;
-        self.writing_raw = false;
+        // The entry is complete: finishing again (a second `finish()` or `Drop` after a failed one)
+        // must not recompute its header from wherever the stream has moved to since.
+        self.writing_raw = true;
         Ok(())
     }
 
